@@ -186,6 +186,33 @@ pub open spec fn mu(p: Parser) -> int {
 // a stalled parser: look-ahead budget exhausted although input remains (every peek answers Eof)
 pub open spec fn stalled(p: Parser) -> bool { p.fuel == 0 && !at_eof(p) }
 
+// ---- look-ahead budget bookkeeping (C04: the in-function assert!(p.at(..)) / unreachable!() never fire) ----
+// number of non-trivia tokens consumed so far; the kind the next look-ahead sees while fuel remains
+#[verifier::opaque]
+pub open spec fn ntpos(p: Parser) -> int { nontrivia(p.input.tokens@, p.input.cursor as int) }
+#[verifier::opaque]
+pub open spec fn next_kind(p: Parser) -> TokenKind { nth_kind(p.input.tokens@, p.input.cursor as int, 0) }
+// look-aheads made since the last consumed token
+pub open spec fn spent(p: Parser) -> int { 256 - p.fuel as int }
+pub open spec fn dec(f: u32) -> int { if f > 0 { f as int - 1 } else { 0 } }
+
+pub proof fn lemma_skip_same_view(p: Parser, q: Parser)
+    requires p.input.wf(), q.input.tokens == p.input.tokens,
+        q.input.cursor == skip_trivia(p.input.tokens@, p.input.cursor as int) || q.input.cursor == p.input.cursor,
+    ensures ntpos(q) == ntpos(p), next_kind(q) == next_kind(p),
+{
+    reveal(ntpos); reveal(next_kind);
+    lemma_skip_trivia_bounds(p.input.tokens@, p.input.cursor as int);
+    lemma_nth_skip(p.input.tokens@, p.input.cursor as int, 0);
+}
+pub proof fn lemma_nth_skip(ts: Seq<Token>, c: int, n: int)
+    requires 0 <= c <= ts.len(),
+    ensures nth_kind(ts, skip_trivia(ts, c), n) == nth_kind(ts, c, n),
+    decreases ts.len() - c,
+{
+    if c < ts.len() && is_trivia_k(ts[c].kind) { lemma_nth_skip(ts, c + 1, n); }
+}
+
 // once stalled, a parser stays stalled until it makes progress
 pub open spec fn stay(o: Parser, n: Parser) -> bool { stalled(o) ==> (mu(n) < mu(o) || stalled(n)) }
 
